@@ -170,7 +170,7 @@ theorem compileLambda_comm {n : Ast} {prog : Prog} (hq : n.all (posQ φ ψ) = tr
     Except.pure]
   simp only [ArgsView.mapP] at e1 e2 e4 ⊢
   simp only [e1, e2, e4]
-  simp only [List.map_append, map_visit_mapP, List.map_cons, List.map_nil, Instr.mapP, Binding.mapP, NameInfo.mapP, hloc]
+  simp only [List.map_append, map_visit_mapP, List.map_cons, List.map_nil, Instr.mapP, Binding.mapP, NameInfo.mapP, hloc, Option.map_none]
 
 theorem compileClassDef_comm {n : Ast} {prog : Prog} (hq : n.all (posQ φ ψ) = true)
     (h : compileClassDef n = .ok prog) : compileClassDef (n.mapPos φ) = .ok (prog.map (Instr.mapP φ ψ)) := by
@@ -209,7 +209,7 @@ theorem compBinds_comm {cp : Option Pos} {i : Nat} (hcp : ∀ l, cp = some l →
         have ih' := ih rest h2
         simp only [Option.map_some] at ih'
         simp only [List.map_cons, Target.mapP, compBinds, Option.map_some, ih', bind, Except.bind, pure, Except.pure,
-          List.map_append, List.map_cons, List.map_nil, Instr.mapP, Binding.mapP, NameInfo.mapP, assigned]
+          List.map_append, List.map_cons, List.map_nil, Instr.mapP, Binding.mapP, NameInfo.mapP, assigned, Option.map_none]
         rw [hcp l rfl]
     | attr p =>
       simp only [compBinds, bind_ok_iff, pure_ok_iff] at h
